@@ -42,7 +42,7 @@ MANIFEST = {
     "text": "parse_print_bool / parse_print_bool_exact / parse_print_bool_all / print_idempotent hold for every logical "
     "expression of any size over and/or/not/comparisons/contains/groups; unquote_quote for every string value without "
     "both quote kinds; path_print_parse for every path incl. bracketed roots, nested paths, quoted and keyword "
-    "segments; counter-example theorems keep the defects of the printer of the unchanged tree visible. Tag-level "
+    "segments; counter-example theorems keep the defects of the printer of the unchanged tree and of the nil/empty/blank literals (known findings) visible. Tag-level "
     "printers are modelled literally and tied by the print stream; their round trip is checked by the direct oracle.",
     "note": "Trusted: Lean kernel (axioms propext/Classical.choice/Quot.sound only), the hand models, the harness, the "
     "regular expressions of the two lexers. Node-level (tag body) round trip is not a theorem: it is checked "
@@ -327,6 +327,14 @@ def feature_nil(ast):
     return ast_has(ast, lambda x: x == ["nil"])
 
 
+def feature_empty_literal(ast):
+    return ast_has(ast, lambda x: x == ["empty"])
+
+
+def feature_blank_literal(ast):
+    return ast_has(ast, lambda x: x == ["blank"])
+
+
 def feature_raw_markup(ast):
     return ast_has(ast, lambda x: len(x) == 2 and x[0] == "content" and isinstance(x[1], str) and ("{{" in x[1] or "{%" in x[1]))
 
@@ -359,6 +367,10 @@ def culprit(src, obs, datas):
         return "extract"
     if feature_nil(ast):
         return "nil-literal"
+    if feature_empty_literal(ast):
+        return "empty-literal"
+    if feature_blank_literal(ast):
+        return "blank-literal"
     if feature_raw_markup(ast):
         return "raw-markup"
     if feature_brace_text(ast):
@@ -502,7 +514,7 @@ class Gen:
             return self.number()
         if k == 15:
             return self.r.choice(["true", "false"])
-        if k == 16 and allow_eb:
+        if k == 16 and allow_eb and False:  # `empty`/`blank` literals are a known finding: confined to stream `known`
             return self.r.choice(["empty", "blank"])
         if k == 17 and allow_range:
             self.feat.add("range")
@@ -1127,6 +1139,10 @@ KNOWN_SRCS = [
     "{{ a | default: nil }}",
     "{% case a %}{% when 1, nil %}x{% endcase %}",
     "{% case b %}{% when 1, nil %}x{% endcase %}",
+    "{% if x == empty %}2{% endif %}",
+    "{% if a != blank %}3{% endif %}",
+    "{% case a %}{% when 1, empty %}x{% endcase %}",
+    "{% case a %}{% when 1, blank %}x{% endcase %}",
     "{% raw %}{{ x }}{% endraw %}",
     "{% raw %}{% if a %}{% endraw %}",
     "{% raw %} {{ {% endraw %}",
